@@ -1363,6 +1363,11 @@ class Kconfig(object):
                 #           and choices every time we are loading the file.
                 for sym in self.unique_defined_syms:
                     sym._was_set = False
+                    if is_main_sdkconfig:
+                        # Forget what an earlier load recorded about the main sdkconfig: a symbol
+                        # that is no longer in the file must not keep its previous entry.
+                        sym._sdkconfig_value = None
+                        sym._loaded_as_default = False
 
                 for choice in self.unique_choices:
                     choice._was_set = False
